@@ -25,8 +25,9 @@ func init() {
 			"(R04.4) every path that makes a table reachable from another instance records that instance in the table's keep-alive list under its mutex; (R04.5) index spaces are not mixed: the import section is indexed only by its own loop variable, and the index recorded for an imported function is the function-space index its consumers compare against the import count; " +
 			"(R04.6) after every lowered call every mutable global is re-read unconditionally; (R04.8) the Go side of instance-relative builtins (memory.grow, table.grow, ref.func, wait/notify, listeners) acts on the calling instance, not on the entry instance. " +
 			"(R04.9) the interpreter re-uses the frame for return_call_indirect only within the same instance; (R04.10) a store to an imported global reloads the other imported mutable globals, which may alias it (genuine compiler defect found and fixed); (R04.11) the reference of an imported function is the defining module's function instance (genuine compiler defect found and fixed: LookupFunction resolved to function 0 of the exporter); (R04.12) active element segments write every slot they cover – a `ref.null` initialiser is skipped on this tree (known finding, pinned by an existing unit test). " +
-			"NOT decided: visibility of writes through generated code, state after a failed instantiation.",
+			"(R04.13) every nested call in the interpreter passes the running function's own instance as the calling module. NOT decided: visibility of writes through generated code, state after a failed instantiation.",
 		Rules: []core.Rule{
+			{ID: "R04.13", Template: "T-SIBLING", Text: "nested calls in the interpreter pass the running function's own instance as the calling module", Min: 1},
 			{ID: "R04.9", Template: "T-CONSULT", Text: "interpreter return_call_indirect re-uses the frame only within the same instance", Min: 1},
 			{ID: "R04.10", Template: "T-MUSTPASS", Text: "a store to an imported global reloads the other imported mutable globals (genuine defect found and fixed)", Min: 1},
 			{ID: "R04.11", Template: "T-SIBLING", Text: "wazevo: the reference of an imported function is the defining module's function instance (genuine defect found and fixed)", Min: 1},
@@ -41,6 +42,7 @@ func init() {
 		},
 		Run: runC04,
 		Controls: []core.Control{
+			{Name: "tail-call-fallback-passes-callers-module", File: "internal/engine/interpreter/interpreter.go", Old: "\t\t\t\t// Revert to a normal call.\n\t\t\t\tce.callFunction(ctx, f.moduleInstance, tf)", New: "\t\t\t\t// Revert to a normal call.\n\t\t\t\tce.callFunction(ctx, m, tf)", Rule: "R04.13", Substr: "calling module"},
 			{Name: "tail-call-guard-compares-modules", File: "internal/engine/interpreter/interpreter.go", Old: "if tf.moduleInstance != f.moduleInstance {", New: "if tf.parent.source != f.parent.source {", Rule: "R04.9", Substr: "return_call_indirect"},
 			{Name: "aliased-globals-not-reloaded", File: "internal/engine/wazevo/frontend/lower.go", Old: "\t\tfor _, other := range c.mutableGlobalVariablesIndexes {\n\t\t\tif other != index && other < c.m.ImportGlobalCount {\n\t\t\t\t_ = c.getWasmGlobalValue(other, true)\n\t\t\t}\n\t\t}\n", New: "", Rule: "R04.10", Substr: "imported global"},
 			{Name: "imported-function-reference-from-own-opaque", File: "internal/engine/wazevo/module_engine.go", Old: "\t\timported := &m.importedFunctions[funcIndex]\n\t\treturn imported.me.FunctionInstanceReference(imported.indexInModule)\n", New: "\t\tbegin, _, _ := m.parent.offsets.ImportedFunctionOffset(funcIndex)\n\t\treturn uintptr(unsafe.Pointer(&m.opaque[begin]))\n", Rule: "R04.11", Substr: "imported function"},
@@ -62,6 +64,7 @@ func init() {
 func runC04(c *core.Ctx) {
 	checkSharednessRelation(c, "R04.2")
 	checkRound2C04(c)
+	checkInterpCallerInstance(c, "R04.13")
 	c.SSA()
 	wp := c.Pkg("internal/wasm")
 	info := wp.TypesInfo
@@ -764,5 +767,87 @@ func checkRound2C04(c *core.Ctx) {
 			c.Check(len(bad) == 0 && n > 0, "R04.12", "active element segments write every slot they cover (null initialisers included)", fd.Pos(), "every iteration stores into the table",
 				strings.Join(bad, "; ")+" skips the store: a `ref.null` initialiser does not null out a slot that an earlier segment (or, for an imported table, another module) populated, so a later call_indirect calls the old function instead of trapping")
 		}
+	}
+}
+
+// checkInterpCallerInstance: inside the interpreter's execution loop every nested call passes the running function's own
+// instance as the calling module (host functions receive it as their api.Module: memory, sys context, fd table).
+func checkInterpCallerInstance(c *core.Ctx, rule string) {
+	p := c.Pkg("internal/engine/interpreter")
+	if p == nil {
+		return
+	}
+	info := p.TypesInfo
+	loop := interpExecLoopName(p)
+	n := 0
+	core.AllFuncDecls(p, func(fd *ast.FuncDecl) {
+		if fd.Name.Name != loop || fd.Type.Params == nil {
+			return
+		}
+		// the parameter holding the running function: the one of pointer-to-struct type with a moduleInstance field
+		var fn types.Object
+		var callerMod types.Object
+		for _, f := range fd.Type.Params.List {
+			for _, nm := range f.Names {
+				o := info.Defs[nm]
+				if o == nil {
+					continue
+				}
+				if st, ok := derefStructT(o.Type()).Underlying().(*types.Struct); ok {
+					for i := 0; i < st.NumFields(); i++ {
+						if st.Field(i).Name() == "moduleInstance" {
+							fn = o
+						}
+					}
+				}
+				if core.IsNamed(o.Type(), core.Module+"/internal/wasm", "ModuleInstance") {
+					callerMod = o
+				}
+			}
+		}
+		if fn == nil {
+			c.Undecided(rule, "running-function parameter of the execution loop", fd.Pos(), "no parameter with a moduleInstance field")
+			return
+		}
+		var bad []string
+		ast.Inspect(fd.Body, func(x ast.Node) bool {
+			call, ok := x.(*ast.CallExpr)
+			if !ok {
+				return true
+			}
+			f := core.Callee(info, call)
+			if f == nil || core.RecvNameOf(f) != "callEngine" {
+				return true
+			}
+			// calls that take (ctx, *ModuleInstance, *function …): the dispatcher of nested calls
+			for i, a := range call.Args {
+				if !core.IsNamed(info.Types[a].Type, core.Module+"/internal/wasm", "ModuleInstance") || i+1 >= len(call.Args) {
+					continue
+				}
+				if _, isFn := derefStructT(info.Types[call.Args[i+1]].Type).Underlying().(*types.Struct); !isFn {
+					continue
+				}
+				n++
+				okArg := false
+				if se, ok := ast.Unparen(a).(*ast.SelectorExpr); ok && se.Sel.Name == "moduleInstance" {
+					if id, ok := ast.Unparen(se.X).(*ast.Ident); ok && info.Uses[id] == fn {
+						okArg = true
+					}
+				}
+				if !okArg {
+					what := core.ExprStr(a)
+					if id, ok := ast.Unparen(a).(*ast.Ident); ok && info.Uses[id] == callerMod {
+						what += " (the module of the caller of the running function)"
+					}
+					bad = append(bad, fmt.Sprintf("%s passes %s at %s", f.Name(), what, c.Pos(call.Pos())))
+				}
+			}
+			return true
+		})
+		c.Check(len(bad) == 0 && n >= 3, rule, "nested calls in the interpreter pass the running function's own instance as the calling module", fd.Pos(), fmt.Sprintf("%d nested-call site(s) pass <running function>.moduleInstance", n),
+			strings.Join(bad, "; ")+": the callee – possibly a host function such as a WASI call – is told that another instance is calling it and acts on that instance's memory, sys context and descriptor table")
+	})
+	if n == 0 {
+		c.Undecided(rule, "nested-call sites of the interpreter", 0, "none found")
 	}
 }
